@@ -312,8 +312,21 @@ def _alarm(signum, frame):
     raise _Timeout()
 
 
-def guarded(fn, seconds=8.0):
-    """returns (out, value): out in ok / RuntimeError / RecursionError / timeout / <other exception class>"""
+_RETRIES = [3]
+
+
+def guarded(fn, seconds=20.0):
+    """returns (out, value): out in ok / RuntimeError / RecursionError / timeout / <other exception class>.
+    A timeout is only believed after a second, much longer attempt (a loaded machine must not look like
+    an unbounded loop); at most 3 such retries per process."""
+    out, val = _guarded(fn, seconds)
+    if out == "timeout" and _RETRIES[0] > 0:
+        _RETRIES[0] -= 1
+        out, val = _guarded(fn, 90.0)
+    return out, val
+
+
+def _guarded(fn, seconds):
     old = signal.signal(signal.SIGALRM, _alarm)
     signal.setitimer(signal.ITIMER_REAL, seconds)
     try:
